@@ -70,6 +70,9 @@ Request(c) ==
                 nonce_present |-> c.state # "First", nonce |-> c.nonce,
                 algs_present |-> c.state # "First" /\ withAlgs /\ c.algsPresent,
                 algs |-> IF c.state # "First" /\ withAlgs /\ c.algsPresent THEN c.algs ELSE <<>>,
+                algs_p |-> IF c.state # "First" /\ withAlgs /\ c.algsPresent
+                           THEN [i \in DOMAIN c.algs |-> 0] ELSE <<>>,
+                alg_p |-> 0,
                 alg |-> IF c.state # "First" /\ withAlgs THEN c.alg ELSE -1,
                 pa |-> FALSE, ua |-> FALSE, dup |-> FALSE,
                 mi_keys |-> IF c.state # "First" /\ withInt /\ c.integ = "mi" THEN keys ELSE <<>>,
@@ -126,7 +129,8 @@ Descriptor(msg, id) ==
                 \* the security feature bits live in the nonce cookie: no NONCE, no bits
                 cookie |-> msg.noncePresent /\ (msg.pa \/ msg.ua),
                 pa |-> msg.noncePresent /\ msg.pa, ua |-> msg.noncePresent /\ msg.ua,
-                algs_present |-> msg.algs # <<>>, algs |-> msg.algs, alg |-> -1, user |-> "absent",
+                algs_present |-> msg.algs # <<>>, algs |-> msg.algs, algs_p |-> [i \in DOMAIN msg.algs |-> 0],
+                alg_p |-> 0, alg |-> -1, user |-> "absent",
                 dup |-> FALSE, mi_keys |-> keysOf("mi"), sha_keys |-> keysOf("sha")]]
 
 Challenges ==
@@ -134,21 +138,21 @@ Challenges ==
     THEN \* mostly well-formed challenges (cookie bit agrees with the list), a few ill-formed ones
          {[cls |-> "error", code |-> 401, realmPresent |-> TRUE, realm |-> r, noncePresent |-> TRUE,
            nonce |-> NonceStr(nonceCtr + 1), pa |-> (al # <<>>), ua |-> ua, algs |-> al, int |-> i] :
-             r \in Realms, ua \in BOOLEAN, al \in AlgLists \cup {<<>>}, i \in {"none", "good", "bad"}}
+             r \in Realms, ua \in BOOLEAN, al \in AlgLists \cup {<<>>}, i \in {"none", "good", "bad", "otherkind"}}
          \cup {[cls |-> "error", code |-> 401, realmPresent |-> rp, realm |-> "r1", noncePresent |-> np,
                 nonce |-> NonceStr(nonceCtr + 1), pa |-> pa, ua |-> FALSE, algs |-> <<>>, int |-> "none"] :
                   rp \in BOOLEAN, np \in BOOLEAN, pa \in BOOLEAN}
     ELSE {[cls |-> "error", code |-> 401, realmPresent |-> rp, realm |-> r, noncePresent |-> np,
            nonce |-> NonceStr(nonceCtr + 1), pa |-> pa, ua |-> ua, algs |-> al, int |-> i] :
              rp \in BOOLEAN, r \in Realms, np \in BOOLEAN, pa \in BOOLEAN, ua \in BOOLEAN,
-             al \in AlgLists \cup {<<>>}, i \in {"none", "good", "bad"}}
+             al \in AlgLists \cup {<<>>}, i \in {"none", "good", "bad", "otherkind"}}
 Messages ==
     Challenges
     \cup
     \* stale nonce
     {[cls |-> "error", code |-> 438, realmPresent |-> FALSE, realm |-> "", noncePresent |-> np,
       nonce |-> NonceStr(nonceCtr + 1), pa |-> cs.algsPresent, ua |-> cs.uh, algs |-> <<>>, int |-> i] :
-        np \in BOOLEAN, i \in {"none", "good", "bad"}}
+        np \in BOOLEAN, i \in {"none", "good", "bad", "otherkind", "otherpw"}}
     \cup
     \* success, ordinary errors, error without code, indication
     {[cls |-> c, code |-> cd, realmPresent |-> FALSE, realm |-> "", noncePresent |-> FALSE,
